@@ -71,7 +71,11 @@ pub fn step<const N: usize, const MODE: u8, const CLASS: u8, S: Src>(s: &mut S) 
     if MODE == 3 {
         let _ = t.next();
     }
-    t.chars = buf.iter();
+    // (a zero-length array is a zero-sized object whose address CBMC cannot keep concrete - all eight
+    // readers were explored for N = 0, 400 s; an empty view of a real one-byte object is concrete)
+    let backing: [u8; 1] = [0];
+    let view: &[u8] = if N == 0 { &backing[..0] } else { &buf[..] };
+    t.chars = view.iter();
     let r = t.next();
     let cursor = N - t.chars.as_slice().len();
     // state after the step, observed through concrete probes
@@ -82,7 +86,7 @@ pub fn step<const N: usize, const MODE: u8, const CLASS: u8, S: Src>(s: &mut S) 
     p2.chars = b":".iter();
     let plain_hdr_after = matches!(p2.next(), Some(Ok(Token::HeaderMnemonicSeparator)));
 
-    let want = ref_step(&buf, h0, c0);
+    let want = ref_step(view, h0, c0);
     crate::note!("C04 step<N={},MODE={},CLASS={}>: input {:?} state (header {}, common {}) -> real {:?} cursor {} (header after: {}), reference {:?}",
         N, MODE, CLASS, crate::checks::show(&buf), h0, c0, r, cursor, hdr_after, want);
 
@@ -114,16 +118,16 @@ pub fn step<const N: usize, const MODE: u8, const CLASS: u8, S: Src>(s: &mut S) 
                 Token::ProgramMessageUnitSeparator => (Kind::Semi, 0, 1, 0, 0, 0),
                 Token::ProgramHeaderSeparator => (Kind::HeaderSep, e.a, e.b, 0, 0, 0),
                 Token::ProgramDataSeparator => (Kind::Comma, 0, 1, 0, 0, 0),
-                Token::ProgramMnemonic(p) => (Kind::Mnemonic, off(&buf, p), off(&buf, p) + p.len(), 0, 0, 0),
-                Token::CharacterProgramData(p) => (Kind::CharData, off(&buf, p), off(&buf, p) + p.len(), 0, 0, 0),
-                Token::DecimalNumericProgramData(p) => (Kind::Decimal, off(&buf, p), off(&buf, p) + p.len(), 0, 0, 0),
+                Token::ProgramMnemonic(p) => (Kind::Mnemonic, off(view, p), off(view, p) + p.len(), 0, 0, 0),
+                Token::CharacterProgramData(p) => (Kind::CharData, off(view, p), off(view, p) + p.len(), 0, 0, 0),
+                Token::DecimalNumericProgramData(p) => (Kind::Decimal, off(view, p), off(view, p) + p.len(), 0, 0, 0),
                 Token::DecimalNumericSuffixProgramData(p, q) => {
-                    (Kind::DecimalSuffix, off(&buf, p), off(&buf, p) + p.len(), off(&buf, q), off(&buf, q) + q.len(), 0)
+                    (Kind::DecimalSuffix, off(view, p), off(view, p) + p.len(), off(view, q), off(view, q) + q.len(), 0)
                 }
                 Token::NonDecimalNumericProgramData(v) => (Kind::NonDecimal, e.a, e.b, 0, 0, v),
-                Token::StringProgramData(p) => (Kind::Str, off(&buf, p), off(&buf, p) + p.len(), 0, 0, 0),
-                Token::ArbitraryBlockData(p) => (Kind::Block, off(&buf, p), off(&buf, p) + p.len(), 0, 0, 0),
-                Token::ExpressionProgramData(p) => (Kind::Expr, off(&buf, p), off(&buf, p) + p.len(), 0, 0, 0),
+                Token::StringProgramData(p) => (Kind::Str, off(view, p), off(view, p) + p.len(), 0, 0, 0),
+                Token::ArbitraryBlockData(p) => (Kind::Block, off(view, p), off(view, p) + p.len(), 0, 0, 0),
+                Token::ExpressionProgramData(p) => (Kind::Expr, off(view, p), off(view, p) + p.len(), 0, 0, 0),
             };
             ob!(kind == e.kind, "C04: element has the wrong type");
             ob!(a == e.a && b == e.b, "C04: payload is not the exact byte range the element denotes");
